@@ -193,13 +193,14 @@ SIDS = ["s1", "s2", "s3"]
 
 def _ref_options(others, full):
   a, b = others
-  o = [[], [a], [b], [a, b], [b, a], ["nx"]]
+  o = [[], [a], [b], [a, b], [b, a], ["nx"], [a, b, a], [b, b]]      # an id may be repeated: the last occurrence decides
   if full:
     o += [[a, "nx"], ["nx", a], [b, "nx"], ["nx", b]]
   return o
 
 
-ELEM_REFS = [[]] + [[s] for s in SIDS] + [[a, b] for a in SIDS for b in SIDS if a != b] + [["nx", "s1"], ["s1", "nx"]]
+ELEM_REFS = [[]] + [[s] for s in SIDS] + [[a, b] for a in SIDS for b in SIDS if a != b] + [["nx", "s1"], ["s1", "nx"]] + \
+            [[a, b, a] for a in SIDS for b in SIDS if a != b] + [["s1", "s1"], ["s2", "s3", "s3", "s2"]]
 TARGETS_P = ["p"]
 TARGETS_R = ["region", "region+n1", "region+n1+n2", "region+n1ref"]
 
